@@ -74,6 +74,7 @@ def run(ctx):
                                 pack_refs=pack_refs)
                     nlay += 1
         SP.wide_cases(eng, res, S.HIST_KEYS, "order", quick, rng)
+        SP.scale_cases(eng, res, S.HIST_KEYS, "order", quick, rng)
     finally:
         eng.close()
     res.coverage_extra["exhaustive_permutation_runs"] = nperm
